@@ -285,7 +285,9 @@ func (g *gen) authReply() replySpec {
 
 func (g *gen) failReply(ms []rscp.Message) replySpec {
 	items := encItems(ms)
-	switch g.pick(8) {
+	switch g.pick(9) {
+	case 8:
+		return replySpec{behaviour{kind: "late", items: items, delay2: 260 * time.Millisecond}, "X"}
 	case 0:
 		return replySpec{behaviour{kind: "silent"}, "X"}
 	case 1:
@@ -349,9 +351,23 @@ func init() {
 			}
 			var ops, res []string
 			prop := "pass"
+			brokenBefore := false // the previous call failed with a transport/protocol error, or was a disconnect
 			for k := 0; k < depth; k++ {
 				c := g.call(k)
 				r := s.call(c)
+				healthy := c.kind != "D" && c.dialOk && c.writeOk && c.auth.beh.kind == "ok" && strings.HasPrefix(c.auth.model, "F [ M 8388609 3 n u8 10") &&
+					c.user.beh.kind == "ok" && rscp.VerifValidateRequests(c.reqs) == nil
+				if brokenBefore && healthy && !strings.HasPrefix(r, "ok ") && prop == "pass" {
+					prop = "FAIL C08 no recovery: after a failed call / disconnect the next call against a healthy peer gives " + trunc(r, 120)
+				}
+				switch {
+				case c.kind == "D":
+					brokenBefore = true
+				case strings.HasPrefix(r, "err io"), strings.HasPrefix(r, "err invalid"), strings.HasPrefix(r, "err dataLimit") && c.user.beh.kind != "ok":
+					brokenBefore = true
+				default:
+					brokenBefore = false
+				}
 				ops = append(ops, c.op())
 				res = append(res, r)
 				if strings.HasPrefix(r, "panic") || strings.HasPrefix(r, "hang") {
